@@ -184,10 +184,7 @@ struct Proj {
 }
 
 fn exercised(input: &str) -> [bool; 10] {
-    let mut e = [false; 10];
-    for tok in input.split(|c: char| c.is_whitespace() || "()'`,".contains(c)).filter(|t| !t.is_empty()) {
-        let tok = tok.trim_start_matches('@').trim_matches(|c| c == '[' || c == ']');
-        let bare = tok;
+    fn features(e: &mut [bool; 10], bare: &str) {
         if bare.starts_with(':') {
             e[0] = true;
         }
@@ -215,6 +212,21 @@ fn exercised(input: &str) -> [bool; 10] {
         }
         if bare.chars().next().map_or(false, |c| c.is_ascii_digit()) {
             e[9] = true;
+        }
+    }
+    let mut e = [false; 10];
+    for tok in input.split(|c: char| c.is_whitespace() || "()'`,".contains(c)).filter(|t| !t.is_empty()) {
+        let tok = tok.trim_start_matches('@').trim_matches(|c| c == '[' || c == ']');
+        features(&mut e, tok);
+        if tok.starts_with('?') || tok.starts_with('#') {
+            // under Emacs character syntax the character ends without a
+            // delimiter and the rest is a token of its own (`?x1x` is the
+            // character x followed by `1x`), and so do the hash tokens
+            // (`#t#:` is #t followed by `#:`, `#nil40x` is #nil followed by
+            // `40x`): every suffix counts
+            for (i, _) in tok.char_indices().skip(1) {
+                features(&mut e, &tok[i..]);
+            }
         }
     }
     if input.contains('[') || input.contains(']') {
@@ -547,4 +559,26 @@ fn replay(_sub: &str, case: &Json) -> Option<CaseResult> {
         Some(f) => Some(Err(f)),
         None => Some(Ok(Eval::new(true, digest_of(&c)))),
     }
+}
+
+/// libFuzzer entry: a token made of the raw bytes (no delimiters, no
+/// whitespace) in one of the eleven positions. Tokens outside the table are
+/// only held to non-interference and totality, as in the thorough tier.
+pub fn fuzz(f: &mut FuzzIn) -> Option<CaseResult> {
+    let (pos, rest) = f.raw.split_first()?;
+    let tok = std::str::from_utf8(rest).ok()?;
+    if tok.is_empty() || tok.len() > 16 || tok.chars().any(|c| c.is_whitespace() || c.is_control() || "()[]\"';`,|\\".contains(c) || c == '\u{85}' || c == '\u{2028}' || c == '\u{2029}') {
+        return None;
+    }
+    let c = Case { token: tok.to_string(), position: pos % POSITIONS };
+    let in_table = CORPUS.contains(&tok);
+    let mut last = None;
+    for r in check_case(&c) {
+        match r {
+            Err(fl) if !in_table && !fl.signature.contains("non-interference") && !fl.signature.contains("panic") => continue,
+            Err(fl) => return Some(Err(fl)),
+            Ok(e) => last = Some(Ok(e)),
+        }
+    }
+    last
 }
